@@ -9,6 +9,7 @@ import (
 	"io"
 	"iter"
 	"reflect"
+	"time"
 )
 
 type evA struct {
@@ -161,6 +162,10 @@ type flakyStore struct {
 	// cancelShaped: rejections look like an abandoned operation (the error also wraps
 	// context.Canceled) although the publish context is alive
 	cancelShaped bool
+	// callerDeadline: the deadline of the context the publisher handed in (zero: none); nearestIsCallers records
+	// per Append whether the context's nearest deadline is that one (i.e. no tighter one was put in front of it)
+	callerDeadline   time.Time
+	nearestIsCallers []bool
 }
 
 func (f *flakyStore) Append(ctx context.Context, e *Event) (Offset, error) {
@@ -170,8 +175,14 @@ func (f *flakyStore) Append(ctx context.Context, e *Event) (Offset, error) {
 	}
 	i := f.calls
 	f.calls++
-	_, hasDeadline := ctx.Deadline()
+	dl, hasDeadline := ctx.Deadline()
 	f.sawDeadline = append(f.sawDeadline, hasDeadline)
+	callers := hasDeadline && !f.callerDeadline.IsZero() && dl.Equal(f.callerDeadline)
+	f.nearestIsCallers = append(f.nearestIsCallers, callers)
+	if callers {
+		// only the publisher's far deadline is in force: it does not pass within this scenario
+		return f.inner.Append(ctx, e)
+	}
 	out := 0
 	if i < len(f.outcomes) {
 		out = f.outcomes[i]
